@@ -822,6 +822,9 @@ def oracle(scn, res):
         r = results.get(SD_ID, [])
         if [k for _, k, _ in r] != ['succ'] and not (SD_ID in cancels and cancels[SD_ID][0] == deadline):
             bad('stop_data_last', f'stop_data run did not succeed: {[(t, k) for t, k, _ in r]}')
+        elif not res['results']:
+            # (a changed implementation may report nothing at all: judged, not crashed on)
+            bad('exactly_one_result', 'the stop_data run has no result event (no result event at all)')
         elif res['results'][-1][2] != SD_ID:
             bad('stop_data_last', f"the last result event is for put {res['results'][-1][2]}, not for stop_data")
         elif SD_ID in starts:
